@@ -666,7 +666,45 @@ impl<'o> From<&'o mir::Block> for BorrowedBlock<'o> {
 }
 
 fn find_best_internal_address(device: &mir::Device) -> proc_macro2::Ident {
-    let (min_address_found, max_address_found) = find_min_max_addresses(&device.objects, |_| true);
+    let (mut min_address_found, mut max_address_found) =
+        find_min_max_addresses(&device.objects, |_| true);
+
+    // The internal type is not only the type of the addresses. It is also the type of what is written out and
+    // calculated on the way to them: the address (or offset) of every object itself, its stride, its index
+    // and the index times the stride
+    recurse_objects(&device.objects, &mut |object| {
+        let ref_target = match object {
+            mir::Object::Ref(ref_object) => {
+                search_object(ref_object.object_override.name(), &device.objects)
+            }
+            _ => None,
+        };
+        let address = object
+            .address()
+            .or_else(|| ref_target.and_then(|target| target.address()));
+        let repeat = object
+            .repeat()
+            .or_else(|| ref_target.and_then(|target| target.repeat()));
+
+        let last_index = repeat.map(|repeat| repeat.count.saturating_sub(1) as i128);
+        let stride = repeat.map(|repeat| repeat.stride.unsigned_abs() as i128);
+
+        for value in [
+            address.map(i128::from),
+            stride,
+            last_index,
+            last_index.zip(stride).map(|(index, stride)| index * stride),
+        ]
+        .into_iter()
+        .flatten()
+        {
+            min_address_found = min_address_found.min(value);
+            max_address_found = max_address_found.max(value);
+        }
+
+        Ok(())
+    })
+    .unwrap();
 
     let needs_signed = min_address_found < 0;
     let needs_bits = (min_address_found
